@@ -7,9 +7,11 @@ use crate::rng::Rng;
 use ciphercore_base::bytes::{vec_u128_from_bytes, vec_u64_from_bytes};
 use ciphercore_base::data_types::*;
 use ciphercore_base::data_values::Value;
+use ciphercore_base::typed_value::TypedValue;
+use ciphercore_base::typed_value_operations::TypedValueOperations;
 use serde_json::json;
 
-pub const HEADER: &str = "From CC Require Import Base.Prelude Base.Scalar Base.Ty Model.Bytes.";
+pub const HEADER: &str = "From CC Require Import Base.Prelude Base.Scalar Base.Ty Model.Bytes Model.TvJson.";
 
 fn expected_ext128(x: Int, st: ScalarType) -> u128 {
     // independent statement of the property: x mod 2^w, sign-extended to 128 bits for signed types
@@ -205,5 +207,706 @@ pub fn run(tier: &str, seed: u64, out: &mut Out) {
                 if t == t2 && r != Outcome::Ok(true) { out.violation("check_type-own-zero", json!({"type":format!("{}",t)}), "zero_of_type(t) does not check against t".into()); } else { out.oracle_ok(); }
             }
         }
+    }
+    run_json(tier, seed, out);
+}
+
+// =====================================================================================================
+// JSON half: Model/TvJson.v against typed_value_serialization.rs
+// =====================================================================================================
+
+/// JSON tree, the image of Model/TvJson.v `json`.  Integer tokens keep their digits (any size);
+/// a number token with a fraction or an exponent is `Float`.  Object fields keep their order.
+#[derive(Clone, Debug, PartialEq)]
+enum J {
+    Null,
+    Bool(bool),
+    Num(String),
+    Float(String),
+    Str(String),
+    Arr(Vec<J>),
+    Obj(Vec<(String, J)>),
+}
+
+/// Minimal reader of the text serde_json prints for a TypedValue (no escapes are ever produced:
+/// the generator's names are [A-Za-z0-9 _$:]).  Independent of serde_json::Value, so key order and
+/// big integers are seen as printed.
+struct P<'a> {
+    b: &'a [u8],
+    i: usize,
+}
+impl<'a> P<'a> {
+    fn ws(&mut self) {
+        while self.i < self.b.len() && (self.b[self.i] as char).is_ascii_whitespace() {
+            self.i += 1;
+        }
+    }
+    fn lit(&mut self, s: &str) -> Option<()> {
+        if self.b[self.i..].starts_with(s.as_bytes()) {
+            self.i += s.len();
+            Some(())
+        } else {
+            None
+        }
+    }
+    fn string(&mut self) -> Option<String> {
+        if self.b.get(self.i) != Some(&b'"') {
+            return None;
+        }
+        self.i += 1;
+        let st = self.i;
+        while *self.b.get(self.i)? != b'"' {
+            if self.b[self.i] == b'\\' {
+                return None;
+            }
+            self.i += 1;
+        }
+        let s = std::str::from_utf8(&self.b[st..self.i]).ok()?.to_string();
+        self.i += 1;
+        Some(s)
+    }
+    fn value(&mut self) -> Option<J> {
+        self.ws();
+        match *self.b.get(self.i)? {
+            b'n' => self.lit("null").map(|_| J::Null),
+            b't' => self.lit("true").map(|_| J::Bool(true)),
+            b'f' => self.lit("false").map(|_| J::Bool(false)),
+            b'"' => self.string().map(J::Str),
+            b'[' => {
+                self.i += 1;
+                let mut v = vec![];
+                self.ws();
+                if self.b.get(self.i) == Some(&b']') {
+                    self.i += 1;
+                    return Some(J::Arr(v));
+                }
+                loop {
+                    v.push(self.value()?);
+                    self.ws();
+                    match *self.b.get(self.i)? {
+                        b',' => self.i += 1,
+                        b']' => {
+                            self.i += 1;
+                            return Some(J::Arr(v));
+                        }
+                        _ => return None,
+                    }
+                }
+            }
+            b'{' => {
+                self.i += 1;
+                let mut v = vec![];
+                self.ws();
+                if self.b.get(self.i) == Some(&b'}') {
+                    self.i += 1;
+                    return Some(J::Obj(v));
+                }
+                loop {
+                    self.ws();
+                    let k = self.string()?;
+                    self.ws();
+                    if *self.b.get(self.i)? != b':' {
+                        return None;
+                    }
+                    self.i += 1;
+                    let x = self.value()?;
+                    v.push((k, x));
+                    self.ws();
+                    match *self.b.get(self.i)? {
+                        b',' => self.i += 1,
+                        b'}' => {
+                            self.i += 1;
+                            return Some(J::Obj(v));
+                        }
+                        _ => return None,
+                    }
+                }
+            }
+            _ => {
+                let st = self.i;
+                while self.i < self.b.len() && matches!(self.b[self.i], b'-' | b'+' | b'.' | b'e' | b'E' | b'0'..=b'9') {
+                    self.i += 1;
+                }
+                let s = std::str::from_utf8(&self.b[st..self.i]).ok()?.to_string();
+                if s.is_empty() {
+                    return None;
+                }
+                let int = s.strip_prefix('-').unwrap_or(&s).bytes().all(|c| c.is_ascii_digit()) && s != "-";
+                Some(if int { J::Num(s) } else { J::Float(s) })
+            }
+        }
+    }
+}
+fn j_parse(text: &str) -> Option<J> {
+    let mut p = P { b: text.as_bytes(), i: 0 };
+    let v = p.value()?;
+    p.ws();
+    if p.i == p.b.len() {
+        Some(v)
+    } else {
+        None
+    }
+}
+fn j_render(j: &J) -> String {
+    match j {
+        J::Null => "null".into(),
+        J::Bool(b) => b.to_string(),
+        J::Num(s) | J::Float(s) => s.clone(),
+        J::Str(s) => format!("\"{}\"", s),
+        J::Arr(v) => format!("[{}]", v.iter().map(j_render).collect::<Vec<_>>().join(",")),
+        J::Obj(v) => format!("{{{}}}", v.iter().map(|(k, x)| format!("\"{}\":{}", k, j_render(x))).collect::<Vec<_>>().join(",")),
+    }
+}
+fn j_coq(j: &J) -> String {
+    match j {
+        J::Null => "JNull".into(),
+        J::Bool(b) => format!("(JBool {})", b),
+        J::Num(s) => {
+            if s.starts_with('-') {
+                format!("(JNum ({}))", s)
+            } else {
+                format!("(JNum {})", s)
+            }
+        }
+        J::Float(_) => "JFloat".into(),
+        J::Str(s) => format!("(JStr {})", coq_string(s)),
+        J::Arr(v) => format!("(JArr {})", list(v, j_coq)),
+        J::Obj(v) => format!("(JObj {})", list(v, |(k, x)| format!("({}, {})", coq_string(k), j_coq(x)))),
+    }
+}
+
+fn tval_coq(tv: &TypedValue) -> String {
+    format!("({}, {})", ty(&tv.t), bvalue(&tv.value))
+}
+
+/// Independent statement of which types the JSON form can carry at all: it has no place for the
+/// element type of an empty vector (read back as vector of empty tuples) and none for the field list
+/// of an empty named tuple (its "value":[] is read as an untyped empty sequence).
+fn json_carries_type(t: &Type) -> bool {
+    match t {
+        Type::Scalar(_) | Type::Array(_, _) => true,
+        Type::Vector(n, e) => json_carries_type(e) && (*n > 0 || **e == tuple_type(vec![])),
+        Type::Tuple(ts) => ts.iter().all(|t| json_carries_type(t)),
+        Type::NamedTuple(fs) => !fs.is_empty() && fs.iter().all(|(_, t)| json_carries_type(t)),
+    }
+}
+
+fn has_empty_named(t: &Type) -> bool {
+    match t {
+        Type::Scalar(_) | Type::Array(_, _) => false,
+        Type::Vector(_, e) => has_empty_named(e),
+        Type::Tuple(ts) => ts.iter().any(|t| has_empty_named(t)),
+        Type::NamedTuple(fs) => fs.is_empty() || fs.iter().any(|(_, t)| has_empty_named(t)),
+    }
+}
+
+fn has_lossy_vector(t: &Type) -> bool {
+    match t {
+        Type::Scalar(_) | Type::Array(_, _) => false,
+        Type::Vector(n, e) => (*n == 0 && **e != tuple_type(vec![])) || has_lossy_vector(e),
+        Type::Tuple(ts) => ts.iter().any(|t| has_lossy_vector(t)),
+        Type::NamedTuple(fs) => fs.iter().any(|(_, t)| has_lossy_vector(t)),
+    }
+}
+
+fn n_elems(t: &Type) -> usize {
+    match t {
+        Type::Scalar(_) => 1,
+        Type::Array(sh, _) => sh.iter().product::<u64>() as usize,
+        _ => 0,
+    }
+}
+
+/// Value of type `t`.  mode 0: leaves written from in-range boundary integers; 1: leaves are raw
+/// bytes (every bit pattern incl. stray bits beyond a bit array's size); 2: fixed pattern `fix`.
+fn gen_value(t: &Type, mode: u32, fix: Option<Int>, rng: &mut Rng) -> Value {
+    match t {
+        Type::Scalar(st) | Type::Array(_, st) => {
+            let n = n_elems(t);
+            if mode == 1 {
+                let bits = n as u64 * width(*st) as u64;
+                let len = ((bits + 7) / 8) as usize;
+                let bytes: Vec<u8> = (0..len).map(|_| if rng.chance(1, 2) { *rng.pick(&[0u8, 0xff, 0x80, 0x7f, 1]) } else { rng.next() as u8 }).collect();
+                Value::from_bytes(bytes)
+            } else {
+                let xs: Vec<u128> = (0..n)
+                    .map(|_| match fix {
+                        Some(x) => x.wrap128(),
+                        None => in_range_i128(*st, rng).wrap128(),
+                    })
+                    .map(|x| if *st == BIT { x & 1 } else { x })
+                    .collect();
+                Value::from_flattened_array(&xs, *st).unwrap()
+            }
+        }
+        Type::Vector(n, e) => Value::from_vector((0..*n).map(|_| gen_value(e, mode, fix, rng)).collect()),
+        Type::Tuple(ts) => Value::from_vector(ts.iter().map(|t| gen_value(t, mode, fix, rng)).collect()),
+        Type::NamedTuple(fs) => Value::from_vector(fs.iter().map(|(_, t)| gen_value(t, mode, fix, rng)).collect()),
+    }
+}
+
+fn json_type(rng: &mut Rng, depth: u32) -> Type {
+    let k = if depth == 0 { rng.below(3) } else { rng.below(8) };
+    match k {
+        0 => scalar_type(*rng.pick(&ALL_ST)),
+        1 => array_type(random_shape(rng), *rng.pick(&ALL_ST)),
+        2 => array_type(if rng.chance(1, 2) { vec![1 + rng.below(20)] } else { vec![1 + rng.below(3), 1 + rng.below(7)] }, BIT),
+        3 | 4 => {
+            let n = if rng.chance(1, 8) { 0 } else { 1 + rng.below(3) };
+            tuple_type((0..n).map(|_| json_type(rng, depth - 1)).collect())
+        }
+        5 => {
+            let n = if rng.chance(1, 12) { 0 } else { 1 + rng.below(3) };
+            let names = ["a", "b1", "field 2", "x_y", "kind", "value"];
+            let off = rng.below(3) as usize;
+            named_tuple_type((0..n as usize).map(|i| (names[(i + off) % names.len()].to_string(), json_type(rng, depth - 1))).collect())
+        }
+        _ => {
+            let n = if rng.chance(1, 12) { 0 } else { 1 + rng.below(3) };
+            let e = if n == 0 && rng.chance(1, 2) { tuple_type(vec![]) } else { json_type(rng, depth - 1) };
+            vector_type(n, e)
+        }
+    }
+}
+
+fn j_paths(j: &J, cur: &mut Vec<usize>, acc: &mut Vec<Vec<usize>>) {
+    acc.push(cur.clone());
+    match j {
+        J::Arr(v) => {
+            for (i, x) in v.iter().enumerate() {
+                cur.push(i);
+                j_paths(x, cur, acc);
+                cur.pop();
+            }
+        }
+        J::Obj(v) => {
+            for (i, (_, x)) in v.iter().enumerate() {
+                cur.push(i);
+                j_paths(x, cur, acc);
+                cur.pop();
+            }
+        }
+        _ => {}
+    }
+}
+fn j_at<'a>(j: &'a mut J, path: &[usize]) -> &'a mut J {
+    let mut c = j;
+    for &i in path {
+        c = match c {
+            J::Arr(v) => &mut v[i],
+            J::Obj(v) => &mut v[i].1,
+            _ => unreachable!(),
+        };
+    }
+    c
+}
+
+/// One perturbation of a printed tree; returns its label, or None when no node of the needed sort exists.
+fn perturb(j: &mut J, rng: &mut Rng) -> Option<String> {
+    let mut paths = vec![];
+    j_paths(j, &mut vec![], &mut paths);
+    let sort = rng.below(3);
+    let cand: Vec<Vec<usize>> = {
+        let mut c = vec![];
+        for p in &paths {
+            let node = j_at(j, p);
+            let ok = match (sort, &*node) {
+                (0, J::Obj(_)) => true,
+                (1, J::Num(_)) => true,
+                (2, J::Arr(_)) => true,
+                _ => false,
+            };
+            if ok {
+                c.push(p.clone());
+            }
+        }
+        c
+    };
+    if cand.is_empty() {
+        return None;
+    }
+    let p = rng.pick(&cand).clone();
+    let node = j_at(j, &p);
+    match node {
+        J::Obj(fs) => {
+            let which = rng.below(9);
+            match which {
+                0 => {
+                    // wrong kind string
+                    let k = *rng.pick(&["scalar", "array", "vector", "tuple", "named tuple", "Scalar", "named_tuple", ""]);
+                    for f in fs.iter_mut() {
+                        if f.0 == "kind" {
+                            f.1 = J::Str(k.to_string());
+                        }
+                    }
+                    Some(format!("kind:={}", k))
+                }
+                1 => {
+                    // missing field
+                    if fs.is_empty() {
+                        return None;
+                    }
+                    let i = rng.below(fs.len() as u64) as usize;
+                    let (k, _) = fs.remove(i);
+                    Some(format!("drop:{}", k))
+                }
+                2 => {
+                    let i = rng.below(fs.len().max(1) as u64) as usize;
+                    if fs.is_empty() {
+                        return None;
+                    }
+                    let f = fs[i].clone();
+                    let k = f.0.clone();
+                    fs.push(f);
+                    Some(format!("dup:{}", k))
+                }
+                3 => {
+                    let k = *rng.pick(&["typ", "Kind", "names", "shape", ""]);
+                    let at = rng.below(fs.len() as u64 + 1) as usize;
+                    fs.insert(at, (k.to_string(), J::Num("1".into())));
+                    Some(format!("unknown-field:{}", k))
+                }
+                4 => {
+                    let t = *rng.pick(&["bit", "u8", "i8", "u16", "i16", "u32", "i32", "u64", "i64", "u128", "i128", "b", "i33", "U8", ""]);
+                    let mut hit = false;
+                    for f in fs.iter_mut() {
+                        if f.0 == "type" {
+                            f.1 = J::Str(t.to_string());
+                            hit = true;
+                        }
+                    }
+                    if !hit {
+                        fs.push(("type".into(), J::Str(t.to_string())));
+                    }
+                    Some(format!("type:={}", t))
+                }
+                5 => {
+                    rng.shuffle(fs);
+                    Some("reorder-fields".into())
+                }
+                6 => {
+                    // a field of the wrong JSON sort
+                    if fs.is_empty() {
+                        return None;
+                    }
+                    let i = rng.below(fs.len() as u64) as usize;
+                    let k = fs[i].0.clone();
+                    fs[i].1 = rng.pick(&[J::Null, J::Num("7".into()), J::Bool(true), J::Str("scalar".into()), J::Arr(vec![]), J::Obj(vec![])]).clone();
+                    Some(format!("retype-field:{}", k))
+                }
+                7 => {
+                    // add a name next to kind/type, or a private-number key next to the others
+                    let k = *rng.pick(&["name", "$serde_json::private::Number"]);
+                    fs.push((k.to_string(), J::Str("5".into())));
+                    Some(format!("extra:{}", k))
+                }
+                _ => {
+                    // the element object alone where a {name,value} wrapper is expected and vice versa
+                    let inner = fs.iter().find(|f| f.0 == "value").map(|f| f.1.clone());
+                    match inner {
+                        Some(x) => {
+                            *node = x;
+                            Some("unwrap-value".into())
+                        }
+                        None => None,
+                    }
+                }
+            }
+        }
+        J::Num(s) => {
+            let old = s.clone();
+            let pool: Vec<J> = vec![
+                J::Num("340282366920938463463374607431768211456".into()),  // 2^128
+                J::Num("340282366920938463463374607431768211455".into()),  // 2^128-1
+                J::Num("-170141183460469231731687303715884105728".into()), // -2^127
+                J::Num("-170141183460469231731687303715884105729".into()), // -2^127-1
+                J::Num("18446744073709551616".into()),                     // 2^64
+                J::Num("-9223372036854775809".into()),                     // -2^63-1
+                J::Num("256".into()),
+                J::Num("2".into()),
+                J::Num("-1".into()),
+                J::Num("-129".into()),
+                J::Num("65536".into()),
+                J::Float("1.5".into()),
+                J::Float("1.0".into()),
+                J::Float("1e2".into()),
+                J::Float("-0.5".into()),
+                J::Null,
+                J::Bool(true),
+                J::Bool(false),
+                J::Str("1".into()),
+                J::Arr(vec![J::Num(old.clone())]),
+                J::Obj(vec![("$serde_json::private::Number".into(), J::Str(old.clone()))]),
+                J::Obj(vec![("$serde_json::private::Number".into(), J::Str("+5".into()))]),
+                J::Obj(vec![("$serde_json::private::Number".into(), J::Str("-".into()))]),
+                J::Obj(vec![("$serde_json::private::Number".into(), J::Str("".into()))]),
+                J::Obj(vec![("$serde_json::private::Number".into(), J::Str("12a".into()))]),
+                J::Obj(vec![("$serde_json::private::Number".into(), J::Str("-0012".into()))]),
+                J::Obj(vec![("$serde_json::private::Number".into(), J::Str("340282366920938463463374607431768211456".into()))]),
+                J::Obj(vec![("$serde_json::private::Number".into(), J::Num("5".into()))]),
+            ];
+            let n = rng.pick(&pool).clone();
+            let lab = format!("num:={}", j_render(&n));
+            *node = n;
+            Some(lab)
+        }
+        J::Arr(v) => match rng.below(6) {
+            0 => {
+                v.pop();
+                Some("arr-pop".into())
+            }
+            1 => {
+                if v.is_empty() {
+                    return None;
+                }
+                let x = v[0].clone();
+                v.push(x);
+                Some("arr-push-copy".into())
+            }
+            2 => {
+                if v.is_empty() {
+                    return None;
+                }
+                let x = v[0].clone();
+                v[0] = J::Arr(vec![x]);
+                Some("arr-wrap-first".into())
+            }
+            3 => {
+                v.clear();
+                Some("arr-clear".into())
+            }
+            4 => {
+                // ragged: the last sub-array loses or gains an element, or an element is flattened
+                let i = v.len().checked_sub(1)?;
+                match &mut v[i] {
+                    J::Arr(w) => {
+                        if rng.chance(1, 2) {
+                            w.pop();
+                        } else {
+                            w.push(J::Num("1".into()));
+                        }
+                        Some("ragged-last".into())
+                    }
+                    _ => {
+                        v.push(J::Arr(vec![J::Num("0".into())]));
+                        Some("mixed-depth".into())
+                    }
+                }
+            }
+            _ => {
+                // move one element from the last row to the first: same count, ragged rows
+                if v.len() < 2 {
+                    return None;
+                }
+                let last = v.len() - 1;
+                let moved = match &mut v[last] {
+                    J::Arr(w) => w.pop(),
+                    _ => None,
+                }?;
+                match &mut v[0] {
+                    J::Arr(w) => w.push(moved),
+                    _ => return None,
+                }
+                Some("ragged-same-count".into())
+            }
+        },
+        _ => None,
+    }
+}
+
+fn rust_parse(text: &str) -> Outcome<TypedValue> {
+    let text = text.to_string();
+    match std::panic::catch_unwind(move || serde_json::from_str::<TypedValue>(&text)) {
+        Ok(Ok(tv)) => Outcome::Ok(tv),
+        Ok(Err(_)) => Outcome::Err,
+        Err(_) => Outcome::Panic,
+    }
+}
+fn rust_print(tv: &TypedValue) -> Outcome<String> {
+    let tv = tv.clone();
+    match std::panic::catch_unwind(std::panic::AssertUnwindSafe(move || serde_json::to_string(&tv))) {
+        Ok(Ok(s)) => Outcome::Ok(s),
+        Ok(Err(_)) => Outcome::Err,
+        Err(_) => Outcome::Panic,
+    }
+}
+
+/// All the cases and oracle checks for one typed value.
+fn json_one(tv: &TypedValue, label: &str, n_malformed: usize, rng: &mut Rng, out: &mut Out) {
+    let t = &tv.t;
+    let input = json!({"what": label, "type": format!("{}", t), "value": bvalue(&tv.value).chars().take(160).collect::<String>()});
+    let nested = !(t.is_scalar() || t.is_array());
+    let printed = rust_print(tv);
+    out.stat(&format!("json_print:{}", printed.tag()));
+    let tree = match &printed {
+        Outcome::Ok(s) => match j_parse(s) {
+            Some(j) => Outcome::Ok(j),
+            None => {
+                out.violation("json-text-unreadable", input.clone(), format!("harness reader cannot read {}", s));
+                return;
+            }
+        },
+        Outcome::Err => Outcome::Err,
+        Outcome::Panic => Outcome::Panic,
+    };
+    let has_neg_or_big = match &printed {
+        Outcome::Ok(s) => s.contains('-') || s.split(|c: char| !c.is_ascii_digit()).any(|d| d.len() > 19),
+        _ => false,
+    };
+    let nontrivial = nested || has_neg_or_big || matches!(t, Type::Array(_, _));
+    out.case("json_print", format!("print_tv {} {}", ty(t), bvalue(&tv.value)), res(&tree, j_coq), input.clone(), nontrivial);
+    let (text, tree) = match (printed, tree) {
+        (Outcome::Ok(s), Outcome::Ok(j)) => (s, j),
+        (Outcome::Panic, _) => {
+            out.violation("json-print-panics", input.clone(), "to_string panicked".into());
+            return;
+        }
+        _ => return,
+    };
+    // parse what Rust printed: model on the tree, Rust on the text
+    let back = rust_parse(&text);
+    out.stat(&format!("json_parse:{}", back.tag()));
+    out.case("json_parse", format!("parse_tv {}", j_coq(&tree)), res(&back, tval_coq), input.clone(), nontrivial);
+    // native oracle: the property itself.  Two input classes are open known findings of /repo (the JSON
+    // form cannot carry them); they get their own violation classes, every other failure a different one.
+    let carries = json_carries_type(t);
+    let empty_named = has_empty_named(t);
+    match &back {
+        Outcome::Ok(tv2) => {
+            let eq = { let (a, b) = (tv.clone(), tv2.clone()); observe(move || a.is_equal(&b)) };
+            out.case("is_equal", format!("is_equal {} {}", tval_coq(tv), tval_coq(tv2)), res(&eq, |b| b.to_string()), input.clone(), nontrivial);
+            let again = rust_print(tv2);
+            if eq != Outcome::Ok(true) {
+                if has_lossy_vector(t) {
+                    out.stat("uncarried-type:not-equal");
+                    out.violation("json-empty-vector-type-lost", input.clone(), format!("{} parsed back to type {}, is_equal = {:?}", text, tv2.t, eq));
+                } else {
+                    out.violation("json-roundtrip-not-equal", input.clone(), format!("{} parsed back to type {} value {}, is_equal = {:?}", text, tv2.t, bvalue(&tv2.value), eq));
+                }
+            } else if again != Outcome::Ok(text.clone()) {
+                out.violation("json-second-print-differs", input.clone(), format!("{} then {:?}", text, again));
+            } else {
+                if !carries {
+                    out.stat("uncarried-type:equal");
+                }
+                out.oracle_ok();
+            }
+        }
+        Outcome::Err => {
+            if empty_named {
+                out.stat("uncarried-type:rejected");
+                out.violation("json-empty-named-tuple-rejected", input.clone(), format!("from_str rejects {}", text));
+            } else {
+                out.violation("json-roundtrip-rejected", input.clone(), format!("from_str rejects {}", text));
+            }
+        }
+        Outcome::Panic => out.violation("json-parse-panics", input.clone(), format!("from_str panicked on {}", text)),
+    }
+    // malformed stream: perturbed trees, model and Rust must agree (Ok with the same value, or Err)
+    for _ in 0..n_malformed {
+        let mut m = tree.clone();
+        let lab = match perturb(&mut m, rng) {
+            Some(l) => l,
+            None => continue,
+        };
+        let mtext = j_render(&m);
+        let r = rust_parse(&mtext);
+        out.stat(&format!("json_malformed:{}", r.tag()));
+        out.stat(&format!("perturb:{}", lab.split(':').next().unwrap_or("")));
+        let minput = json!({"what": label, "perturbation": lab, "text": mtext.chars().take(300).collect::<String>()});
+        out.case("json_parse_malformed", format!("parse_tv {}", j_coq(&m)), res(&r, tval_coq), minput.clone(), true);
+        if matches!(r, Outcome::Panic) {
+            out.violation("json-parse-panics", minput, "from_str panicked".into());
+        } else {
+            out.oracle_ok();
+        }
+    }
+}
+
+fn run_json(tier: &str, seed: u64, out: &mut Out) {
+    let mut rng = Rng::new(seed ^ 0xC13_150);
+    let thorough = tier != "quick";
+    // ---- deterministic sweep: every scalar type x boundary values, as scalar and in arrays of rank 1-3
+    let p = |k: u32| -> u128 { 1u128 << k };
+    let fixed: Vec<Int> = vec![
+        Int::I(0), Int::I(1), Int::I(-1), Int::I(-2),
+        Int::I(127), Int::I(128), Int::I(-128), Int::I(255),
+        Int::I(32767), Int::I(-32768), Int::I(65535),
+        Int::I(i32::MAX as i128), Int::I(i32::MIN as i128), Int::I(u32::MAX as i128),
+        Int::I(i64::MAX as i128), Int::I(i64::MIN as i128), Int::U(u64::MAX as u128),
+        Int::U(p(64)), Int::U(p(64) + 1), Int::U(p(127) - 1), Int::U(p(127)), Int::I(i128::MIN), Int::U(u128::MAX),
+    ];
+    let sweep_shapes: [&[u64]; 4] = [&[3], &[2, 2], &[2, 1, 2], &[1]];
+    for &st in ALL_ST.iter() {
+        for (i, x) in fixed.iter().enumerate() {
+            if !thorough && i % 2 == 1 && i < 16 {
+                continue;
+            }
+            let t = scalar_type(st);
+            let v = gen_value(&t, 2, Some(*x), &mut rng);
+            let tv = TypedValue::new(t, v).unwrap();
+            out.stat(&format!("json_st:{}", scalar(st)));
+            json_one(&tv, "sweep-scalar", if thorough { 2 } else { 1 }, &mut rng, out);
+            if thorough || i % 3 == 0 {
+                let t = array_type(sweep_shapes[i % 4].to_vec(), st);
+                let v = gen_value(&t, 2, Some(*x), &mut rng);
+                let tv = TypedValue::new(t, v).unwrap();
+                json_one(&tv, "sweep-array", 1, &mut rng, out);
+            }
+        }
+    }
+    // ---- empty containers (the JSON form has no place for the type of nothing)
+    let edge: Vec<Type> = vec![
+        tuple_type(vec![]),
+        vector_type(0, tuple_type(vec![])),
+        vector_type(0, scalar_type(INT32)),
+        vector_type(0, array_type(vec![3], BIT)),
+        tuple_type(vec![vector_type(0, scalar_type(UINT8)), scalar_type(BIT)]),
+        vector_type(2, vector_type(0, scalar_type(INT64))),
+        named_tuple_type(vec![]),
+        vector_type(2, named_tuple_type(vec![])),
+        named_tuple_type(vec![("a".to_string(), named_tuple_type(vec![]))]),
+        named_tuple_type(vec![("a".to_string(), tuple_type(vec![])), ("b".to_string(), vector_type(1, tuple_type(vec![])))]),
+    ];
+    for t in edge {
+        let v = gen_value(&t, 0, None, &mut rng);
+        let tv = TypedValue::new(t, v).unwrap();
+        json_one(&tv, "empty-container", 1, &mut rng, out);
+    }
+    // ---- random type trees (depth <= 3), leaves from in-range integers or raw bytes
+    let n = if thorough { 1500 } else { 90 };
+    for i in 0..n {
+        let depth = (i % 4) as u32;
+        let t = json_type(&mut rng, depth);
+        let mode = if rng.chance(2, 5) { 1 } else { 0 };
+        let v = gen_value(&t, mode, None, &mut rng);
+        let tv = match TypedValue::new(t.clone(), v) {
+            Ok(tv) => tv,
+            Err(_) => {
+                out.stat("json_gen:new-failed");
+                continue;
+            }
+        };
+        out.stat(&format!("json_depth:{}", depth));
+        out.stat(if mode == 1 { "json_leaves:raw-bytes" } else { "json_leaves:ints" });
+        json_one(&tv, "random", 2, &mut rng, out);
+    }
+    // ---- typed values that violate the TypedValue invariant (fields are public): printing must
+    //      agree with the model (an error, not a panic)
+    let m = if thorough { 150 } else { 20 };
+    for _ in 0..m {
+        let t = json_type(&mut rng, 2);
+        let t2 = json_type(&mut rng, 2);
+        let v = gen_value(&t2, 1, None, &mut rng);
+        let tv = TypedValue { value: v, t, name: None };
+        let pr = rust_print(&tv);
+        out.stat(&format!("json_print_mismatch:{}", pr.tag()));
+        let tree = match &pr {
+            Outcome::Ok(s) => match j_parse(s) { Some(j) => Outcome::Ok(j), None => continue },
+            Outcome::Err => Outcome::Err,
+            Outcome::Panic => Outcome::Panic,
+        };
+        out.case("json_print_mismatch", format!("print_tv {} {}", ty(&tv.t), bvalue(&tv.value)), res(&tree, j_coq),
+            json!({"type": format!("{}", tv.t), "value_of_type": format!("{}", t2)}), true);
     }
 }
